@@ -126,7 +126,9 @@ BOUNDED = {
     'C10': [{'name': 'bound-names-resolve', 'driver': 'names', 'args': ['5'],
              'functions': ['lexer::flatten_name_parts', 'Name::new', 'FeelContext::flatten_keys', 'Scope::flatten_keys', 'Lexer::consume_name (end to end)'],
              'bound': 'all names of up to 5 parts (words a, b, U+017C followed by 1; words separated by a space or joined by ONE additional symbol . / - \' + *), bound programmatically with Name::new; '
-                      'written canonically and with single spaces between all parts, alone and followed by " + 1", with and without the words themselves bound; parse + evaluate under catch_unwind must give the bound value '
+                      'written canonically and with single spaces between all parts, alone and followed by " + 1", with and without the words themselves bound; parse + evaluate under catch_unwind must give the bound value; '
+                      'plus entry names INSIDE bound values (a nested context; the items of a bound list at each of 3 positions beside null / number / other-context items) used in `N - 1`, '
+                      'and 13 context literals over outer names a, b in which an entry key spelled like an operator expression is bound for the later entries but not inside its own value '
                       '(the string code - trim / join / replace / format! - that decides whether flattened parts equal a flattened key is outside Verus\' reach)'}],
 }
 NOT_DECIDED = {'C10': ['flatten_name_parts, Name::new, FeelContext::flatten_keys are string code (trim, join, replace, format!): named by uninterpreted functions in the contract; their agreement is only checked by the bounded stand-in',
